@@ -90,21 +90,14 @@ def _unbound(raw):
 
 # ------------------------------------------------------------------ mechanism predicates
 def _small_inlinable_initializers(proto):
-    """initializers the exporter would inline under inline_const (FLOAT/INT64, rank 0 or rank 1 with < 5 elements)"""
+    """initializers the exporter would inline under inline_const (FLOAT/INT64, rank 0 or rank 1 with < 5 elements),
+    in the main graph or any If/Loop body (models and functions)"""
     out = []
-
-    def graph(g):
+    for g in _graphs(proto):
         for t in g.initializer:
             if t.data_type in (onnx.TensorProto.FLOAT, onnx.TensorProto.INT64) and (
                     len(t.dims) == 0 or (len(t.dims) == 1 and t.dims[0] < 5)):
                 out.append(t.name)
-        for n in g.node:
-            for at in n.attribute:
-                if at.type == onnx.AttributeProto.GRAPH:
-                    graph(at.g)
-
-    if isinstance(proto, onnx.ModelProto):
-        graph(proto.graph)
     return out
 
 
@@ -203,6 +196,9 @@ def mechanism(label, proto, opts, res):
             if opts["inline_const"] and not opts["rename"] and name not in facts["assigned"] and any(
                     ox._cleanup_variable_name(n) == name and n != name for n in _small_inlinable_initializers(proto)):
                 return "inlined_initializer_with_cleaned_up_name", "inline_const"
+    if stage in ("exec", "proto") and exc == "RuntimeError" and where.endswith("default_opset") and opts["use_operators"]:
+        # every node of some function was rendered with a Python operator: no opsetN.X call is left to infer the opset from
+        return "use_operators_leaves_function_without_opset_reference", "use_operators"
     if stage == "exec" and exc == "TranslationError" and "Instruction break" in raw:
         if any(lp["form"] == "for_break" for lp in loops(proto)):
             return "for_break_emitted_as_if_not_cond", "any"
